@@ -182,6 +182,69 @@ def Lex.cells (l : Lex) : Nat := (l.farms.map List.length).sum
 def Lex.poolSizes (l : Lex) : List Nat := l.arena.chain.map (·.2)
 
 
+/-! ## `destroy_subtree` on the linked structure (which cells are read, and when)
+
+The persistent tree hides the one thing the order of statements in `destroy_subtree` is about: `n->right()` must be read
+*before* `destroy_node(n)`.  Here a tree is laid out in a store of linked cells (address ↦ left / right link), and the
+destructor is run on the links; touching a cell that is not live (reading its links or releasing it again) is a fault. -/
+
+structure Cell where
+  l : Option Nat
+  r : Option Nat
+  deriving Repr, DecidableEq
+
+/-- Live cells by address. -/
+abbrev Cells := List (Nat × Cell)
+
+def Cells.get (h : Cells) (a : Nat) : Option Cell :=
+  match h with
+  | [] => none
+  | (b, c) :: rest => if b = a then some c else Cells.get rest a
+
+def Cells.del (h : Cells) (a : Nat) : Cells := h.filter (fun p => p.1 != a)
+
+/-- `destroy_subtree(n)` on links (utility:321-328).  `none` = dead storage touched.  The fuel bounds the number of nodes
+    visited (any fuel ≥ the number of nodes suffices: `C19_destroy_links_safe`). -/
+def destroyLinks : Nat → Cells → Option Nat → Option Cells
+  | _, h, none => some h                              -- while (n != nullptr)
+  | 0, _, some _ => none
+  | fuel + 1, h, some n =>
+    match h.get n with                                -- n->left()
+    | none => none
+    | some c =>
+      match destroyLinks fuel h c.l with              -- destroy_subtree(n->left());
+      | none => none
+      | some h1 =>
+        match h1.get n with                           -- node<T>* next = n->right();
+        | none => none
+        | some c1 => destroyLinks fuel (h1.del n) c1.r   -- destroy_node(n); n = next;
+
+/-- The same with the two statements swapped (`destroy_node(n); next = n->right();`): reads a released cell. -/
+def destroyLinksSwapped : Nat → Cells → Option Nat → Option Cells
+  | _, h, none => some h
+  | 0, _, some _ => none
+  | fuel + 1, h, some n =>
+    match h.get n with
+    | none => none
+    | some c =>
+      match destroyLinksSwapped fuel h c.l with
+      | none => none
+      | some h1 =>
+        let h2 := h1.del n                            -- destroy_node(n);
+        match h2.get n with                           -- next = n->right();   (n is dead)
+        | none => none
+        | some c1 => destroyLinksSwapped fuel h2 c1.r
+
+/-- Address of the root of a tree whose keys are the addresses of its nodes. -/
+def rootAddr : Tree Nat → Option Nat
+  | .nil => none
+  | .node _ _ a _ => some a
+
+/-- The cells of a tree laid out at the addresses it carries. -/
+def layout : Tree Nat → Cells
+  | .nil => []
+  | .node _ l a r => (a, { l := rootAddr l, r := rootAddr r }) :: (layout l ++ layout r)
+
 /-! ## Lexicon sessions: factory calls expressed as storage steps
 
 A `LexRun` is a Lexicon under construction together with the storage-level history that produced it; the proof field
@@ -227,7 +290,7 @@ def kwList : List String := ["int", "this", "default", "C", "C++", "const", "nul
 
 /-! Identities of the built-in constants (never allocated): negative numbers.
     built-in type `k` ↦ `-(1+k)`; `false,true,nullptr,default,delete` ↦ `-31 … -35`; `decltype(nullptr)` ↦ `-40`;
-    empty string ↦ `-99`; reserved word `k`: its String `-(100+k)`, its Identifier `-(200+k)`, its Logogram `-(400+k)`;
+    empty string ↦ `-99`; reserved word `k`: its String `-(100+k)`, its Identifier and Logogram (one object) `-(200+k)`;
     C linkage `-301`, C++ linkage `-302`; the invisible logogram `-310`. -/
 def idFalse : Int := -31
 def idNullptr : Int := -33
@@ -237,7 +300,8 @@ def idEmptyString : Int := -99
 def idVoid : Int := -1            -- `bt 0` is `void_type()`
 def kwString (k : Nat) : Int := -(100 + (k : Int))
 def kwIdent (k : Nat) : Int := -(200 + (k : Int))
-def kwLogo (k : Nat) : Int := -(400 + (k : Int))
+/-- `std_identifier` is both the Identifier and the Logogram of a reserved word (src/impl.cxx:52): one object. -/
+def kwLogo (k : Nat) : Int := kwIdent k
 def isKwString (i : Int) : Option Nat :=
   if i ≤ -100 ∧ i > -100 - (kwList.length : Int) then some (-(i + 100)).toNat else none
 
@@ -403,7 +467,10 @@ def call (s : Sess) (op : String) (a : List String) : Option (Sess × Int) :=
   | "u", tbl :: hs => do
     let key ← s.args hs
     let _ ← tableIdx tbl
-    pure (s.insNamed tbl key)
+    -- `get_as_type(const Identifier&)` answers with the built-in type named by the identifier (src/impl.cxx:1192-1200);
+    -- of the reserved words the sessions use only `int` (`kwList` index 0, built-in 11) names one
+    if tbl == "extendeds" ∧ key == [kwIdent 0] then pure (s, -12)
+    else pure (s.insNamed tbl key)
   | "litw", [t, wid, len] => do
     let t ← s.arg t; let wid ← wid.toNat?; let len ← len.toNat?
     let (s, x) := s.intern wid len
